@@ -352,6 +352,148 @@ theorem prepareSync_wal_blob {hash : Bytes → Nat} {debug : Bool} {S : St} {T :
   rw [f5]
   exact readAll_encode seqn hs _ f6
 
+/-! ## C04: a crash in the middle of the write-out -/
+
+theorem entryOf_mem : ∀ (ds : List Dirty) (bs : List Nat) (x : Nat × Dirty), x ∈ pairs ds bs →
+    entryOf x.2 x.1 ∈ entriesOf ds bs := by
+  intro ds
+  induction ds with
+  | nil => intro bs x h; cases bs <;> simp [pairs] at h
+  | cons d ds ih =>
+    intro bs x h
+    cases bs with
+    | nil => simp [pairs] at h
+    | cons b bs =>
+      simp only [pairs, List.mem_cons] at h
+      simp only [entriesOf, List.mem_cons]
+      rcases h with rfl | h
+      · exact Or.inl rfl
+      · exact Or.inr (ih bs x h)
+
+theorem applyHt_WF (off : Nat) : ∀ (l : List (Nat × Bytes)) (T : Wal.Table), T.WF → (∀ x ∈ l, x.2.length = 4096) →
+    (applyHt off T l).WF := by
+  intro l
+  induction l with
+  | nil => intro T w _; exact w
+  | cons x r ih =>
+    intro T w h
+    rw [applyHt_cons]
+    apply ih _ _ (fun y hy => h y (List.mem_cons_of_mem _ hy))
+    unfold apply1
+    by_cases hlt : x.1 < off
+    · simp only [hlt, if_true]; exact w
+    · simp only [hlt, if_false]
+      intro p hp
+      rcases List.mem_or_eq_of_mem_set hp with h1 | h1
+      · exact w p h1
+      · rw [h1]; exact h x (List.mem_cons_self ..)
+
+/-- **any part of the write-out may have reached the disk**: with covering diffs, recovery of the sync's WAL on the OLD
+table with ANY sub-list of the returned pages already applied (4 KiB pages atomic; any subset, any order) gives exactly the
+table of the completed write-out -/
+theorem prepareSync_partial_writeout {hash : Bytes → Nat} {debug : Bool} {S : St} {T : Wal.Table} {seqn : Nat}
+    {ds : List Dirty} {b0 : Builder} {res : Res} (hB : Before hash S T) (hC : ChangesOK hash S T ds)
+    (hs : seqn < 2 ^ 32) (h : prepareSync hash debug S seqn ds b0 = .ok res)
+    (hcov : ∀ x ∈ ups ds res.cells, Covers (T.pages.getD x.1 []) x.2)
+    (ht' : List (Nat × Bytes)) (hp : ht'.Perm res.ht) (sub : List (Nat × Bytes)) (hsub : sub.Sublist ht') :
+    recover hash seqn (applyHt (dataOffset S.mm.buckets) T sub) res.wal.asSlice.toArray =
+      .ok (applyHt (dataOffset S.mm.buckets) T ht') := by
+  have hfull := (prepareSync_wal_covers_ht_iff hB hC hs h ht' hp).2 hcov
+  obtain ⟨C, f1, f2, _, f4, f5, f6, f7, _, f9, f10, f11, _⟩ := prepareSync_facts hB hC h
+  rw [f5, recover_encode hash seqn _ seqn hs _ f6] at hfull ⊢
+  simp only [ne_eq, not_true_eq_false, if_false] at hfull ⊢
+  have hfit := fit_of_facts hB hC f10
+  have hlen := before_len hB
+  -- the pages of the list
+  have hperm : ht'.Perm (htCanon (dataOffset S.mm.buckets) ds res.cells C res.mm.bitvec) := hp.trans f4
+  have hmem : ∀ x, x ∈ ht' ↔ x ∈ htCanon (dataOffset S.mm.buckets) ds res.cells C res.mm.bitvec := fun x => hperm.mem_iff
+  have hkeys : (ht'.map (·.1)).Nodup := (hperm.map (·.1)).nodup_iff.2 (htCanon_keys_nodup f11 f1 f2)
+  have hM'len : res.mm.bitvec.length = T.meta.length := by rw [f7, metaRedo_length]
+  have hokAll : HtOK (dataOffset S.mm.buckets) T.meta.length ht' := by
+    intro x hx
+    rw [hmem] at hx
+    unfold htCanon at hx
+    rcases List.mem_append.1 hx with hx | hx
+    · obtain ⟨y, hy, rfl⟩ := List.mem_map.1 hx
+      obtain ⟨hy1, hy2⟩ := ups_sub_pairs ds res.cells y hy
+      exact ⟨((hfit y hy1).2 hy2).2.page, fun hlt => by simp only at hlt; omega⟩
+    · obtain ⟨p, hp', rfl⟩ := List.mem_map.1 hx
+      have hpo := f2 p hp'
+      have hb : p * 4096 + 4096 ≤ T.meta.length := by
+        rw [hlen]
+        have : (p + 1) * 4096 ≤ dataOffset S.mm.buckets * 4096 := Nat.mul_le_mul_right _ hpo
+        omega
+      exact ⟨slice_length (by rw [hM'len]; exact hb), fun _ => hb⟩
+  have hokSub : HtOK (dataOffset S.mm.buckets) T.meta.length sub := fun x hx => hokAll x (hsub.subset hx)
+  have hkeysSub : (sub.map (·.1)).Nodup := (hsub.map (·.1)).nodup hkeys
+  obtain ⟨l1, l2⟩ := applyHt_lengths _ sub T hokSub
+  apply redoAll_agree hash _ f6 hB.pagesWF
+    (applyHt_WF _ sub T hB.pagesWF (fun x hx => (hokSub x hx).1)) ⟨l1.symm, l2.symm⟩ _ hfull
+  intro pos hnw
+  have hnoEntry : ∀ x ∈ pairs ds res.cells, ¬ (entryOf x.2 x.1).writes pos :=
+    fun x hx hw => hnw ⟨_, entryOf_mem ds res.cells x hx, hw⟩
+  cases pos with
+  | «meta» j =>
+    show T.meta[j]? = (applyHt _ T sub).meta[j]?
+    have hj : ∀ x ∈ pairs ds res.cells, x.1 ≠ j := by
+      intro x hx e
+      apply hnoEntry x hx
+      unfold entryOf
+      split
+      · exact e.symm
+      · exact e.symm
+    have hsame : res.mm.bitvec[j]? = T.meta[j]? := by rw [f7]; exact metaRedo_frame hash ds res.cells _ j hj
+    by_cases hc : ∃ x ∈ sub, x.1 < dataOffset S.mm.buckets ∧ j / 4096 = x.1
+    · obtain ⟨x, hx, hlt, e⟩ := hc
+      have := applyHt_meta_hit _ sub T hokSub hkeysSub x hx hlt (j % 4096) (Nat.mod_lt _ (by omega))
+      have e2 : x.1 * 4096 + j % 4096 = j := by omega
+      rw [e2] at this
+      rw [this]
+      have hx' := (hmem x).1 (hsub.subset hx)
+      unfold htCanon at hx'
+      rcases List.mem_append.1 hx' with hx' | hx'
+      · obtain ⟨y, _, rfl⟩ := List.mem_map.1 hx'
+        simp only at hlt; omega
+      · obtain ⟨p, _, rfl⟩ := List.mem_map.1 hx'
+        simp only at e2 ⊢
+        rw [getElem?_slice, if_pos (Nat.mod_lt _ (by omega)), e2, hsame]
+    · rw [applyHt_meta_frame _ sub T hokSub j]
+      intro x hx hlt e
+      exact hc ⟨x, hx, hlt, e⟩
+  | byte b o =>
+    show (T.pages[b]?).bind (·[o]?) = ((applyHt _ T sub).pages[b]?).bind (·[o]?)
+    by_cases hc : ∃ x ∈ sub, dataOffset S.mm.buckets ≤ x.1 ∧ x.1 - dataOffset S.mm.buckets = b
+    · obtain ⟨x, hx, hle, e⟩ := hc
+      have hx' := (hmem x).1 (hsub.subset hx)
+      unfold htCanon at hx'
+      rcases List.mem_append.1 hx' with hx' | hx'
+      · obtain ⟨y, hy, rfl⟩ := List.mem_map.1 hx'
+        obtain ⟨hy1, hy2⟩ := ups_sub_pairs ds res.cells y hy
+        obtain ⟨hbl, hupd⟩ := (hfit y hy1).2 hy2
+        simp only at e hle
+        have eb : y.1 = b := by omega
+        have := applyHt_pages_hit _ sub T hkeysSub _ hx (Nat.le_add_right _ _)
+          (by show dataOffset S.mm.buckets + y.1 - dataOffset S.mm.buckets < _; omega)
+        simp only [Nat.add_sub_cancel_left] at this
+        rw [← eb, this, List.getElem?_eq_getElem hbl]
+        simp only [Option.bind_some]
+        have hgd : T.pages.getD y.1 [] = T.pages[y.1]'hbl := by
+          rw [List.getD_eq_getElem?_getD, List.getElem?_eq_getElem hbl]; rfl
+        have hcv := hcov y hy
+        rw [hgd] at hcv
+        -- the position is not written by the entry of `y`
+        have hnot := hnoEntry y hy1
+        unfold entryOf at hnot
+        rw [if_neg (by rw [hy2]; simp)] at hnot
+        simp only [Entry.writes, eb, true_and, not_or, Nat.not_le] at hnot
+        exact hcv o hnot.1 hnot.2
+      · obtain ⟨p, hp', rfl⟩ := List.mem_map.1 hx'
+        have := f2 p hp'
+        simp only at hle; omega
+    · rw [applyHt_pages_frame _ sub T b]
+      intro x hx hle e
+      exact hc ⟨x, hx, hle, e⟩
+
 /-! ## C19: the occupancy counter -/
 
 theorem applyDelta_diff {occ o : Nat} (h1 : occ < 2 ^ 64) (h2 : o < 2 ^ 64) :
